@@ -10,6 +10,7 @@ import (
 	"os"
 	"path/filepath"
 	"runtime"
+	"runtime/pprof"
 	"sort"
 	"strconv"
 	"strings"
@@ -542,14 +543,10 @@ func (bf *builtFile) position(x int) string {
 	return "x_in_data"
 }
 
-// hangLimit: wall-clock limit for one image (normally milliseconds). On a
-// machine loaded with 16 thorough processes plus other jobs single images
-// were seen to take > 120 s (mmap / unmap / rename stalls) without being
-// reproducible, which made the thorough run inconclusive; the thorough tier
-// therefore waits longer before it declares a hang.
+// hangLimit: wall-clock limit for one image (normally milliseconds).
 var hangLimit = func() time.Duration {
-	if os.Getenv("VERIF_TIER") == "thorough" {
-		return 600 * time.Second
+	if d, err := time.ParseDuration(os.Getenv("VERIF_C05_HANGLIMIT")); err == nil && d > 0 { // development aid
+		return d
 	}
 	return 120 * time.Second
 }()
@@ -637,6 +634,16 @@ func (e *c05env) hang(bf *builtFile, sp imgSpec) {
 	f := failure{File: bf.Key, X: sp.x, Tail: tailNames[sp.kind], Why: "no result within " + hangLimit.String(),
 		Image: base64.StdEncoding.EncodeToString(img), States: bf.States}
 	p := e.artefact(f, "c05_hang.json")
+	// where is it stuck? (all goroutine stacks, before anything else runs)
+	fmt.Fprintf(os.Stderr, "VERIF-HANG property=C05 image %s x=%d tail=%s: no result within %v; goroutines:\n", bf.Key, sp.x, tailNames[sp.kind], hangLimit)
+	pprof.Lookup("goroutine").WriteTo(os.Stderr, 2)
+	if d := os.Getenv("VERIF_C05_HANGDUMP"); d != "" { // development aid: keep the stacks outside the driver's scratch dir
+		if df, err := os.Create(filepath.Join(d, fmt.Sprintf("hang_%d_x%d_%s.txt", os.Getpid(), sp.x, tailNames[sp.kind]))); err == nil {
+			fmt.Fprintf(df, "image %s x=%d tail=%s\n", bf.Key, sp.x, tailNames[sp.kind])
+			pprof.Lookup("goroutine").WriteTo(df, 2)
+			df.Close()
+		}
+	}
 	again := make(chan evalResult, 1)
 	go func() {
 		defer ownGoroutine()()
